@@ -32,7 +32,18 @@ func GRPCValidation(thorough bool) check.Family {
 	return check.Family{Name: "g-valid-" + tierName(thorough), Cases: spec.GRPCValidation(thorough)}
 }
 
+// GRPCStreamValidation is validated streamed messages x streaming kind x result kind
+// (e2/spec/families_grpc_stream.go; oracle e2/drv/c10streamval.go).
+func GRPCStreamValidation(thorough bool) check.Family {
+	return check.Family{Name: "g-streamval-" + tierName(thorough), Cases: spec.GRPCStreamValidation(thorough), PerService: 4, PerDesign: 1}
+}
+
+// GRPCReuse is the services of the client-reuse oracle (e2/drv/c10reuse.go), one per design.
+func GRPCReuse(thorough bool) check.Family {
+	return check.Family{Name: "g-reuse-" + tierName(thorough), Cases: spec.GRPCReuse(thorough), PerService: 4, PerDesign: 1}
+}
+
 // GRPC lists the gRPC families.
 func GRPC(thorough bool) []check.Family {
-	return []check.Family{GRPCTypes(thorough), GRPCTags(), GRPCMeta(thorough), GRPCStreams(), GRPCValidation(thorough)}
+	return []check.Family{GRPCTypes(thorough), GRPCTags(), GRPCMeta(thorough), GRPCStreams(), GRPCValidation(thorough), GRPCStreamValidation(thorough), GRPCReuse(thorough)}
 }
